@@ -39,6 +39,27 @@ theorem of_tableAll {α} {p : Nat → α → Bool} {tab : Array α} (h : tableAl
   have := of_listAll tab.toList p h i (by simpa using hi)
   simpa using this
 
+/-- a table checked in two halves (two modules, in parallel) -/
+theorem of_tableAll_split {α} {p : Nat → α → Bool} {tab : Array α} (n : Nat)
+    (h1 : tableAll p (tab.toList.take n).toArray = true)
+    (h2 : tableAll (fun j => p (n + j)) (tab.toList.drop n).toArray = true) :
+    ∀ i (hi : i < tab.size), p i tab[i] = true := by
+  intro i hi
+  by_cases hn : i < n
+  · have := of_tableAll h1 i (by simp; omega)
+    simpa using this
+  · have := of_tableAll h2 (i - n) (by simp; omega)
+    have e : n + (i - n) = i := by omega
+    simp only [e] at this
+    simpa [e] using this
+
+theorem of_rangeAll {p : Nat → Bool} {lo hi : Nat} (h : ((List.range hi).filter (lo ≤ ·)).all p = true) :
+    ∀ r, lo ≤ r → r < hi → p r = true := by
+  intro r h1 h2
+  apply (List.all_eq_true.mp h) r
+  simp only [List.mem_filter, List.mem_range, decide_eq_true_eq]
+  omega
+
 theorem of_radixAll {p : Nat → Bool} (h : radixAll p = true) :
     ∀ r, 2 ≤ r → r ≤ 36 → p r = true := by
   intro r h2 h36
